@@ -223,7 +223,12 @@ pub fn chain_for(rng: &mut Rng, thorough: bool) -> (GenCfg, u32, IndexCfg) {
     }
   }
   gencfg.max_txs = *rng.pick(&[3usize, 6]);
-  let blocks = if thorough { rng.range(60, 250) } else { rng.range(40, 100) } as u32;
+  let mut blocks = if thorough { rng.range(60, 250) } else { rng.range(40, 100) } as u32;
+  // a quarter of the inscription chains cross the regtest jubilee height (110):
+  // the curse/vindication rule changes there, whatever the batching
+  if !sat_only && rng.chance(1, 4) {
+    blocks = blocks.max(rng.range(113, 135) as u32);
+  }
   (gencfg, blocks, base)
 }
 
